@@ -56,7 +56,7 @@ from vtlengine.AST.Grammar.tokens import (
     VIRAL_ATTRIBUTE,
 )
 from vtlengine.DataTypes import SCALAR_TYPES_CLASS_REVERSE
-from vtlengine.Model import Component, Dataset
+from vtlengine.Model import Component, Dataset, Scalar
 
 nl = "\n"
 tab = "\t"
@@ -283,6 +283,8 @@ class ASTString(ASTTemplate):
             argument_type = "dataset"
         elif isinstance(node.type_, Component):
             argument_type = "component"
+        elif isinstance(node.type_, Scalar):
+            argument_type = "scalar"
         else:
             argument_type = node.type_.__name__.lower()
 
